@@ -599,6 +599,29 @@ Proof.
     apply wmean_is_wmean. apply win_terms_weight_pos; assumption.
 Qed.
 
+Lemma window_reach : forall win, 1 <= win ->
+  let lo := win / 2 in let hi := win - 1 - lo in
+  0 <= lo /\ 0 <= hi /\ lo + hi + 1 = win /\
+  (win mod 2 = 1 -> hi = lo) /\ (win mod 2 = 0 -> hi = lo - 1).
+Proof.
+  intros win Hwin lo hi. unfold hi, lo.
+  pose proof (Z.div_mod win 2). pose proof (Z.mod_pos_bound win 2). lia.
+Qed.
+
+(* the statement asked by the property text: every strictly positive kernel *)
+Corollary bilateral_eq_spec_pos : forall inv B ny nx sigma sk rk disp mask, 1 <= B ->
+  let win := win_width ny nx sigma in
+  let lo := win / 2 in
+  let hi := win - 1 - lo in
+  1 <= win -> kernel_pos (sp_of sk lo) rk lo hi ->
+  let out := bilateral_filter_disparity inv B ny nx sigma sk rk disp mask in
+  bilateral_step_spec inv lo hi ny nx (sp_of sk lo) rk disp mask (fst out) (snd out).
+Proof.
+  intros inv B ny nx sigma sk rk disp mask HB win lo hi Hwin Hk.
+  destruct (window_reach win Hwin) as (Hlo & Hhi & _).
+  apply bilateral_eq_spec; try assumption. apply kernel_pos_ok; assumption.
+Qed.
+
 (* hence (convexity): between the smallest and the largest valid value of the window *)
 Theorem bilateral_between_min_max : forall inv B ny nx sigma sk rk disp mask r c cv, 1 <= B ->
   let win := win_width ny nx sigma in
